@@ -78,6 +78,9 @@ class Concretizer:
             return {'$float_bits': _ev(self.model, z3.Int(name + '#bits'))}
         if k == 'none':
             return None
+        if k == 'fconst':
+            import struct
+            return {'$float_bits': int.from_bytes(struct.pack('<d', float(typ[1])), 'little')}
         if k == 'enum':
             ci = typ[1]
             members = self.ex.index.enum_members(ci)
@@ -140,6 +143,9 @@ class Concretizer:
             return {'$frac': [0, 1]}
         if k == 'float':
             return {'$float_bits': 0}
+        if k == 'fconst':
+            import struct
+            return {'$float_bits': int.from_bytes(struct.pack('<d', float(typ[1])), 'little')}
         if k == 'enum':
             ci = typ[1]
             return {'$enum': ci.qualname, 'member': self.ex.index.enum_members(ci)[0][0]}
@@ -227,6 +233,8 @@ def ghost_values(model):
         if nm.startswith('ghost_'):
             fi = model[d]
             ent = {'table': [], 'else': None}
+            if z3.is_int_value(fi):          # 0-ary ghost constant
+                ent['else'] = fi.as_long()
             if isinstance(fi, z3.FuncInterp):
                 for i in range(fi.num_entries()):
                     e = fi.entry(i)
